@@ -39,6 +39,9 @@ func (in *Inline) String() string {
 // Validate a type.
 func (in *Inline) Validate(root *Root) (errs []error) {
 	errs = append(errs, in.SelBase.Validate(root)...)
+	if ref, _ := in.Condition.(*Ref); ref != nil {
+		errs = append(errs, valError(in.line, in.col, "type condition %s is not defined", ref.Name()))
+	}
 	for _, du := range in.Directives() {
 		errs = append(errs, root.validateDirUse("...", Locate(in), du)...)
 	}
